@@ -60,7 +60,28 @@ MM7 == [root |-> "Model",
 NoNames == << >>
 XY      == <<"x", "y">>
 NoDev   == {}
-EnvDev  == IF IOEnv.VT_DEV = "" THEN {} ELSE {IOEnv.VT_DEV}
+
+\* bounds and switches come from the environment (one cfg per purpose).
+\* TLC re-evaluates the right-hand side of a cfg substitution `C <- D` at every
+\* use of C, but caches an ordinary constant-level definition: hence D == D0.
+EnvDev0      == IF IOEnv.VT_DEV = "" THEN {} ELSE {IOEnv.VT_DEV}
+EnvMM0       == IF IOEnv.VT_NAV_MM = "MM7" THEN MM7 ELSE MM5
+EnvNames0    == IF IOEnv.VT_NAV_MM = "MM7" THEN XY ELSE NoNames
+EnvMaxN0     == atoi(IOEnv.VT_NAV_MAXN)
+EnvMaxNamed0 == atoi(IOEnv.VT_NAV_MAXNAMED)
+EnvMaxUn0    == atoi(IOEnv.VT_NAV_MAXUNNAMED)
+EnvMaxRefs0  == atoi(IOEnv.VT_NAV_MAXREFS)
+EnvFullN0    == atoi(IOEnv.VT_NAV_FULLN)
+EnvSorted0   == IOEnv.VT_NAV_SORTED = "1"
+EnvDev      == EnvDev0
+EnvMM       == EnvMM0
+EnvNames    == EnvNames0
+EnvMaxN     == EnvMaxN0
+EnvMaxNamed == EnvMaxNamed0
+EnvMaxUn    == EnvMaxUn0
+EnvMaxRefs  == EnvMaxRefs0
+EnvFullN    == EnvFullN0
+EnvSorted   == EnvSorted0
 
 BiX == [name |-> "x", cls |-> "Sub1"]
 BiY == [name |-> "y", cls |-> "Other"]
